@@ -53,6 +53,16 @@ Proof.
   pose proof (disc_trace s1 later _ Hin) as Hd. simpl in Hd. lia.
 Qed.
 
+(* Every way of returning a resource ends in this one critical section: a stale tag never
+   re-admits, a current tag with room appends exactly the returned resource, a full pool discards. *)
+Theorem C18_give_back : forall s t ci ch w r tag c,
+  nth_error (ths s) t = Some (GBPush r tag c) ->
+  let s' := fst (gstep s (Step t ci ch w)) in
+  (tag <> disc (pl s) -> queue (pl s') = queue (pl s)) /\
+  (tag = disc (pl s) -> qlen s < size (pl s) -> queue (pl s') = queue (pl s) ++ [r]) /\
+  (size (pl s) <= qlen s -> queue (pl s') = queue (pl s)).
+Proof. exact give_back_outcome. Qed.
+
 (* Capacity: the queue never exceeds max(size, initial length), and it only ever grows from
    below the size (so a pool that starts within its size stays within it). *)
 Theorem C18_cap : forall sz q0 n sched,
